@@ -77,7 +77,7 @@ func familyListShape(thorough bool) map[string]interface{} {
 		{"deep-last", upto(70, 100, 128), deepSecond, "a chain of n nested lists, each [bool, next]"},
 	}
 	if thorough {
-		kinds[0].sizes = upto(300, 1000, 4096, 10000)
+		kinds[0].sizes = upto(300, 1000, 4095, 4096) // 4096 entries is the documented cap of a list
 		kinds[3].sizes = upto(300, 512, 1000)
 	}
 	cov := map[string]interface{}{}
